@@ -98,11 +98,14 @@ class Query:
 
     def __init__(self, timeout_ms: int = 60000):
         self.low = Lowerer()
-        self.solver = z3.SolverFor("QF_NRA")
-        self.solver.set("timeout", timeout_ms)
+        # NOTE: no push/pop -- an incremental QF_NRA solver silently falls back from nlsat to the generic
+        # SMT core, which neither decides these goals nor honours the timeout.  Every query gets a fresh
+        # tactic solver; assumptions are kept as a list of lowered formulas.
+        self.lowered_assumptions: list = []
         self.timeout_ms = timeout_ms
         self.time = 0.0
         self.n_queries = 0
+        self.n_identity = 0
         self._positive: set[Term] = set()
         self.assumed: list[Term] = []
 
@@ -111,31 +114,56 @@ class Query:
             return
         self.assumed.append(t)
         self._declare_atoms([t])
-        self.solver.add(self.low.lower(t))
+        self.lowered_assumptions.append(self.low.lower(t))
 
     def _declare_atoms(self, roots):
         for s in T.free_symbols(roots):
             if s.op == "atom" and s not in self._positive:
                 self._positive.add(s)
-                self.solver.add(self.low.sym(s) > 0)
+                self.lowered_assumptions.append(self.low.sym(s) > 0)
 
     def check_sat(self, extra: list[Term]):
         """returns ('sat', model) | ('unsat', None) | ('unknown', None)"""
         self._declare_atoms(extra)
-        self.solver.push()
+        solver = z3.SolverFor("QF_NRA")
+        solver.set("timeout", self.timeout_ms)
+        for a in self.lowered_assumptions:
+            solver.add(a)
+        for t in extra:
+            solver.add(self.low.lower(t))
+        t0 = time.time()
+        r = solver.check()
+        self.time += time.time() - t0
+        self.n_queries += 1
+        rs = str(r)
+        if rs == "sat":
+            return "sat", solver.model()
+        return rs, None
+
+    def identity(self, goal: Term, budget_ms: int = 30000) -> bool:
+        """Polynomial-identity stage: for goals that are (conjunctions of) equalities a == b, let z3's
+        rewriter normalise a - b to a sum of monomials (simplify with som); if every difference
+        reduces to the numeral 0 the goal is valid for ALL values (no assumptions needed)."""
+        eqs = goal.args if goal.op == "and" else (goal,)
+        if not all(e.op == "eq" for e in eqs):
+            return False
+        t0 = time.time()
         try:
-            for t in extra:
-                self.solver.add(self.low.lower(t))
-            t0 = time.time()
-            r = self.solver.check()
-            self.time += time.time() - t0
-            self.n_queries += 1
-            rs = str(r)
-            if rs == "sat":
-                return "sat", self.solver.model()
-            return rs, None
+            tac = z3.TryFor(z3.With("simplify", som=True, som_blowup=10000000, flat=True), budget_ms)
+            for e in eqs:
+                a, b = self.low.lower(e.args[0]), self.low.lower(e.args[1])
+                g = z3.Goal()
+                g.add(self.low._r(a) - self.low._r(b) != 0)
+                res = tac(g)
+                ok = len(res) == 1 and (res[0].inconsistent() or (len(res[0]) == 1 and z3.is_false(res[0][0])))
+                if not ok:
+                    return False
+            return True
+        except z3.Z3Exception:
+            return False
         finally:
-            self.solver.pop()
+            self.time += time.time() - t0
+            self.n_identity += 1
 
     def valid(self, goal: Term):
         """Is goal implied by the assumptions?  returns ('valid', None) | ('cex', model) | ('unknown', None)"""
@@ -158,7 +186,7 @@ class Query:
 
     def to_smt2(self, extra: list[Term]) -> str:
         s = z3.Solver()
-        for a in self.solver.assertions():
+        for a in self.lowered_assumptions:
             s.add(a)
         for t in extra:
             s.add(self.low.lower(t))
